@@ -207,6 +207,7 @@ func TestVerif_C29(t *testing.T) {
 	vfC29ReadStorm(rec)
 	vfC29ReadVsShrink(rec)
 	vfC29ReplacedUnderHandle(rec)
+	vfC29ReaderInsideMutation(rec)
 	eps := evid.Pick(90, 12000)
 	for ep := 0; ep < eps && rec.Violations() < 20 && !vfC29Hung; ep++ {
 		vfC29Episode(rec, ep)
@@ -1474,6 +1475,101 @@ func vfC29ReplacedUnderHandle(rec *evid.Rec) {
 					srv.Close()
 				}
 			}
+		}
+	}
+}
+
+// vfC29ReaderInsideMutation: the dual of the fill races. A mutating request is stopped just before
+// its first modifying backend call; at that point another client runs LOOKUP, GETATTR and READDIR of
+// the name to completion (they see the old state, correctly, and may cache it); then the mutation
+// goes on. The mutation completed after those reads, so its own reply is that of the serial order
+// "reads, then mutation", and everything asked afterwards - with all caches on - reflects it.
+func vfC29ReaderInsideMutation(rec *evid.Rec) {
+	type mdef struct {
+		name   string
+		do     func(c *vfClient, dh uint64) *rfc.Res
+		after  bool // does /d/n exist afterwards
+		before bool // does it exist before
+	}
+	muts := []mdef{
+		{"CREATE", func(c *vfClient, dh uint64) *rfc.Res { r, _ := c.create(dh, "n", 0, sattrNone, [8]byte{}); return r }, true, false},
+		{"CREATE-guarded", func(c *vfClient, dh uint64) *rfc.Res { r, _ := c.create(dh, "n", 1, sattrNone, [8]byte{}); return r }, true, false},
+		{"MKDIR", func(c *vfClient, dh uint64) *rfc.Res { r, _ := c.mkdir(dh, "n", sattrNone); return r }, true, false},
+		{"SYMLINK", func(c *vfClient, dh uint64) *rfc.Res { r, _ := c.symlink(dh, "n", "t", sattrNone); return r }, true, false},
+		{"RENAME-to", func(c *vfClient, dh uint64) *rfc.Res { r, _ := c.rename(dh, "m", dh, "n"); return r }, true, false},
+		{"REMOVE", func(c *vfClient, dh uint64) *rfc.Res { r, _ := c.remove(dh, "n"); return r }, false, true},
+		{"RENAME-away", func(c *vfClient, dh uint64) *rfc.Res { r, _ := c.rename(dh, "n", dh, "z"); return r }, false, true},
+	}
+	for _, md := range muts {
+		for _, warm := range []bool{false, true} {
+			fs := refs.New()
+			fs.PlantDir("/d", 0777, 0, 0)
+			fs.PlantFile("/d/m", []byte("m"), 0666, 0, 0)
+			if md.before {
+				fs.PlantFile("/d/n", []byte("n"), 0666, 0, 0)
+			}
+			srv, err := vfNewSrv(fs, ExportOptions{AttrCacheTimeout: time.Hour, EnableDirCache: true, CacheNegativeLookups: true})
+			if err != nil {
+				rec.Infra(err.Error())
+				return
+			}
+			c, c2 := srv.client(), srv.client()
+			root, _ := c.mnt("/")
+			dl, _ := c.lookup(root, "d")
+			if dl == nil || dl.Status != 0 {
+				rec.Infra("lookup /d")
+				srv.Close()
+				return
+			}
+			dh := vfFH(dl.FH)
+			if warm {
+				c2.lookup(dh, "n")
+				c2.readdir(dh, 0, 8192)
+			}
+			var once sync.Once
+			inside := ""
+			fs.SetHook(func(op *refs.Op, ph refs.Phase) error {
+				if ph == refs.Before && op.Mutating {
+					once.Do(func() {
+						l, _ := c2.lookup(dh, "n")
+						rd, _ := c2.readdir(dh, 0, 8192)
+						rp, _ := c2.readdirplus(dh, 0, 8192, 32768)
+						inside = fmt.Sprintf("LOOKUP=%d READDIR=%d READDIRPLUS=%d", vfSt(l), vfSt(rd), vfSt(rp))
+					})
+				}
+				return nil
+			})
+			r := md.do(c, dh)
+			fs.SetHook(nil)
+			rec.Eval(1)
+			desc := map[string]any{"mutation": md.name, "caches_warm": warm, "reads_inside_the_window": inside}
+			outcome := "ok"
+			if r == nil || r.Status != 0 {
+				outcome = "mutation-failed"
+				rec.Violate("C29/mutation-answers-as-if-a-concurrent-read-had-come-after-it/"+md.name, fmt.Sprintf("%s of /d/n answered status %d; another client's LOOKUP/READDIR of the name ran to completion just before the request's first modifying backend call (%s) - in the serial order \"reads, then %s\" the request succeeds", md.name, vfSt(r), inside, md.name), desc)
+			}
+			_, exists := fs.Snapshot()["/d/n"]
+			for i, cl := range []*vfClient{c2, c} {
+				l, _ := cl.lookup(dh, "n")
+				if l != nil && (l.Status == 0) != exists {
+					outcome = "stale-lookup"
+					rec.Violate("C29/reads-inside-a-mutations-window-leave-a-stale-cache-entry/"+md.name+"/LOOKUP", fmt.Sprintf("after %s (status %d) /d/n exists in the backend: %v; LOOKUP by client %d answers status %d (reads inside the window: %s)", md.name, vfSt(r), exists, i, l.Status, inside), desc)
+				}
+				if rd, _ := cl.readdir(dh, 0, 8192); rd != nil && rd.Status == 0 {
+					listed := false
+					for _, e := range rd.Entries {
+						if e.Name == "n" {
+							listed = true
+						}
+					}
+					if listed != exists {
+						outcome = "stale-listing"
+						rec.Violate("C29/reads-inside-a-mutations-window-leave-a-stale-cache-entry/"+md.name+"/READDIR", fmt.Sprintf("after %s (status %d) /d/n exists in the backend: %v; READDIR by client %d lists it: %v", md.name, vfSt(r), exists, i, listed), desc)
+					}
+				}
+			}
+			rec.Distinct(fmt.Sprintf("reader-inside-mutation|%s|warm=%v|%s", md.name, warm, outcome))
+			srv.Close()
 		}
 	}
 }
